@@ -167,6 +167,176 @@ Section Refuses.
   Qed.
 End Refuses.
 
+(* ---------------- a refused export writes nothing ---------------- *)
+Section NoFile.
+  Variable num : Type.
+  Variable print : num -> string.
+  Variable print_id : Z -> string.
+  Variable eq0 : num -> bool.
+  Variable eqn : num -> num -> bool.
+  Lemma refusal_leaves_no_file : forall g,
+    (exists e, export num print print_id eq0 eqn g = Error e) -> export_file num print print_id eq0 eqn g = None.
+  Proof. intros g [e H]. unfold export_file. now rewrite H. Qed.
+  Lemma success_writes_all : forall g ls,
+    export num print print_id eq0 eqn g = Ok ls -> export_file num print print_id eq0 eqn g = Some ls.
+  Proof. intros g ls H. unfold export_file. now rewrite H. Qed.
+End NoFile.
+
+(* ---------------- n cycles ---------------- *)
+Section CyclesN.
+  Variable num : Type.
+  Variable print : num -> string.
+  Variable parse : string -> option num.
+  Variable print_id : Z -> string.
+  Variable parse_id : string -> option Z.
+  Variable wrap : num -> num.
+  Variable normq : list num -> list num.
+  Variable zero : num.
+  Variable eq0 : num -> bool.
+  Variable eqn : num -> num -> bool.
+  Hypothesis parse_print : forall x, parse (print x) = Some x.
+  Hypothesis parse_print_id : forall z, parse_id (print_id z) = Some z.
+  Hypothesis print_good : forall x, good_tok (print x).
+  Hypothesis print_id_good : forall z, good_tok (print_id z).
+  Hypothesis wrap_idem : forall x, wrap (wrap x) = wrap x.
+  Hypothesis normq_idem : forall q, normq (normq q) = normq q.
+  Hypothesis normq_length : forall q, List.length (normq q) = List.length q.
+  Hypothesis eq0_zero : eq0 zero = true.
+
+  Notation canon := (canon num wrap normq zero eqn).
+  Notation canon_vertex := (canon_vertex num wrap).
+  Notation canon_param := (canon_param num wrap).
+  Notation canon_edge := (canon_edge num wrap normq zero).
+  Notation add_offsets := (add_offsets num eqn).
+  Notation wf := (wf num).
+  Notation wf_edge := (wf_edge num).
+  Notation expressible := (expressible num eq0 eqn).
+  Notation edge_expressible := (edge_expressible num eq0).
+  Notation offsets_ok := (offsets_ok num eqn).
+  Notation plookup := (plookup num).
+  Notation wrap3 := (wrap3 num wrap).
+  Notation normq7 := (normq7 num normq).
+  Notation cycle := (cycle num print parse print_id parse_id wrap normq zero eq0 eqn).
+  Notation iter_cycle := (iter_cycle num print parse print_id parse_id wrap normq zero eq0 eqn).
+  Notation offs_refl := (offs_refl num eqn).
+  Notation keep := (fun e : edge num => negb (is_unwritten num e)).
+
+  Lemma wrap3_length : forall l, List.length (wrap3 l) = List.length l.
+  Proof. intros [|x [|y [|t [|u r]]]]; reflexivity. Qed.
+  Lemma normq7_length : forall l, List.length l = 7 -> List.length (normq7 l) = 7.
+  Proof.
+    intros l H. unfold G2OModel.normq7. rewrite app_length, normq_length, firstn_length, skipn_length. lia.
+  Qed.
+  Lemma plookup_in : forall (ps : params num) k v, plookup ps k = Some v -> In (k, v) ps.
+  Proof.
+    induction ps as [|[k' v'] r IH]; intros k v H; simpl in *; [discriminate|].
+    destruct (pkey_eqb k' k) eqn:E.
+    - apply pkey_eqb_eq in E. inversion H; subst. now left.
+    - right. now apply IH.
+  Qed.
+
+  (* the shape of canon g when the writer's loop succeeds *)
+  Lemma canon_shape : forall g ps, add_offsets (g_params g) (g_edges g) = Ok ps ->
+    canon g = mkG (map canon_param ps) (map canon_vertex (g_verts g))
+                  (map (canon_edge (map canon_param ps)) (filter keep (g_edges g))).
+  Proof. intros g ps H. unfold G2OModel.canon, export_params. now rewrite H. Qed.
+
+  Lemma offsets_ok_resolved : forall es ps,
+    Forall (fun e => match e with
+                     | ELmk KSE3 _ _ _ _ _ off oid => exists o, oid = Some o /\ plookup ps (PSE3, o) = Some off /\ list_eqn num eqn off off = true
+                     | _ => True end) es ->
+    offsets_ok ps es.
+  Proof.
+    induction es as [|e r IH]; intros ps H; [exact I|].
+    apply Forall_cons_iff in H. destruct H as [He Hr].
+    destruct e as [k i j est info | ko ke i j est info off oid | ct ids est info]; try (now apply IH).
+    destruct ko; try (now apply IH).
+    destruct He as (o & -> & Hl & Hq). simpl. rewrite Hl. split; [exact Hq | now apply IH].
+  Qed.
+
+  (* canon g is again a graph the theorem applies to *)
+  Lemma canon_preserves : forall g,
+    wf g -> expressible g -> no_written_custom num g -> offs_refl g ->
+    wf (canon g) /\ expressible (canon g) /\ no_written_custom num (canon g).
+  Proof.
+    intros g (Hnd & Hwp & Hwv & Hwe & Hcg) [Hee Hoff] Hnc Hrefl.
+    apply (offsets_ok_iff num eqn) in Hoff. destruct Hoff as [ps Hps].
+    destruct (add_offsets_spec num eqn _ _ _ Hps Hnd Hwp Hwe) as (Hnd' & Hwp' & _ & Hres).
+    unfold G2OSpec.offs_refl, export_params in Hrefl. rewrite Hps in Hrefl.
+    rewrite (canon_shape g ps Hps).
+    set (P := map canon_param ps).
+    assert (HwpP : Forall (wf_param num) P).
+    { subst P. rewrite Forall_map. eapply Forall_impl; [|exact Hwp'].
+      intros [[pk i] v]. unfold wf_param. simpl. destruct pk; simpl; [now rewrite wrap3_length | auto]. }
+    assert (Hlk : forall o v, plookup P (PSE3, o) = Some v -> List.length v = 7 /\ list_eqn num eqn v v = true).
+    { intros o v Hl. split.
+      - apply plookup_in in Hl. rewrite Forall_forall in HwpP. apply (HwpP _ Hl).
+      - subst P. rewrite (plookup_canon_se3 num wrap) in Hl. now apply (Hrefl o). }
+    unfold no_written_custom in Hnc. rewrite Forall_forall in Hres, Hwe, Hee, Hnc.
+    split; [|split].
+    - (* wf *)
+      unfold G2OSpec.wf. cbn [g_params g_verts g_edges]. split; [|split; [|split; [|split]]].
+      + subst P. rewrite map_map. simpl. exact Hnd'.
+      + exact HwpP.
+      + rewrite Forall_map. eapply Forall_impl; [|exact Hwv].
+        intros [i k v]. unfold wf_vertex. simpl. destruct k; simpl; auto. now rewrite wrap3_length.
+      + rewrite Forall_map. apply Forall_forall. intros e Hin. apply filter_In in Hin. destruct Hin as [Hin _].
+        specialize (Hwe e Hin). specialize (Hres e Hin).
+        destruct e as [k i j est info | ko ke i j est info off oid | ct ids est info]; simpl in *; auto.
+        * destruct k; simpl; auto; destruct Hwe as [L S]; split; auto; [now rewrite wrap3_length | now apply normq7_length].
+        * destruct ko; simpl; auto.
+          -- destruct Hwe as (L1 & L2 & S). repeat split; auto.
+          -- destruct Hres as (o & v & -> & Hl). destruct Hwe as (L1 & L2 & S).
+             destruct (plookup P (PSE3, o)) as [v'|] eqn:E; simpl; repeat split; auto.
+             apply (Hlk o v' E).
+      + apply check_graph_canon. exact Hcg.
+    - (* expressible *)
+      unfold G2OSpec.expressible. cbn [g_params g_edges]. split.
+      + rewrite Forall_map. apply Forall_forall. intros e Hin. apply filter_In in Hin. destruct Hin as [Hin _].
+        specialize (Hee e Hin).
+        destruct e as [k i j est info | ko ke i j est info off oid | ct ids est info]; simpl in *; auto.
+        * destruct k; simpl; auto.
+        * destruct ko; simpl; auto.
+          -- left. split; [reflexivity|]. unfold is_ident_se2, ident_se2. simpl. now rewrite eq0_zero.
+          -- destruct oid; simpl; auto.
+      + apply offsets_ok_resolved. rewrite Forall_map. apply Forall_forall. intros e Hin.
+        apply filter_In in Hin. destruct Hin as [Hin _]. specialize (Hres e Hin).
+        destruct e as [k i j est info | ko ke i j est info off oid | ct ids est info]; simpl in *; auto.
+        * destruct k; exact I.
+        * destruct ko; simpl; auto. destruct Hres as (o & v & -> & Hl). simpl.
+          assert (E : plookup P (PSE3, o) = Some v) by (subst P; now rewrite (plookup_canon_se3 num wrap)).
+          rewrite E. exists o. split; [reflexivity|]. split; [exact E | apply (Hlk o v E)].
+    - (* no written custom edge *)
+      unfold no_written_custom. cbn [g_edges]. rewrite Forall_map. apply Forall_forall. intros e Hin.
+      apply filter_In in Hin. destruct Hin as [Hin _]. specialize (Hnc e Hin).
+      destruct e as [k i j est info | ko ke i j est info off oid | ct ids est info]; simpl in *; auto.
+      * destruct k; exact I.
+      * destruct ko; simpl; auto. destruct oid; exact I.
+  Qed.
+
+  Lemma cycle_canon : forall cts g, cts_ok cts -> wf g -> no_written_custom num g -> expressible g ->
+    cycle cts g = Some (canon g).
+  Proof.
+    intros cts g Hc Hw Hn He.
+    destruct (roundtrip num print parse print_id parse_id wrap normq zero eq0 eqn
+                parse_print parse_print_id print_good print_id_good cts g Hc Hw Hn He) as (ls & H1 & H2).
+    unfold G2OSpec.cycle. now rewrite H1, H2.
+  Qed.
+
+  (* C13_cycles_n: any number n >= 1 of export/import cycles yields canon g *)
+  Theorem cycles_n : forall cts g n,
+    cts_ok cts -> wf g -> no_written_custom num g -> expressible g -> offs_refl g ->
+    iter_cycle cts (S n) g = Some (canon g).
+  Proof.
+    intros cts g n Hc Hw Hn He Hr. cbn [G2OSpec.iter_cycle]. rewrite (cycle_canon cts g Hc Hw Hn He).
+    destruct (canon_preserves g Hw He Hn Hr) as (Hw' & He' & Hn').
+    assert (Hfix : cycle cts (canon g) = Some (canon g)).
+    { rewrite (cycle_canon cts (canon g) Hc Hw' Hn' He').
+      now rewrite (canon_idem num wrap normq zero eq0 eqn wrap_idem normq_idem g Hw He). }
+    induction n as [|m IH]; [reflexivity|]. cbn [G2OSpec.iter_cycle]. now rewrite Hfix.
+  Qed.
+End CyclesN.
+
 (* ---------------- the hypotheses are satisfiable ---------------- *)
 Section Examples.
   (* numbers = Z, printed in unary-free style through an injective toy printer: "n" followed by |z| copies of "1",
@@ -218,24 +388,11 @@ Section Examples.
     apply not_expressible_cases. right. right. left.
     exists KR2, 1%Z, 3%Z, [5; 5]%Z, [[1; 2]; [2; 3]]%Z, [0; 1; 0]%Z, None. split; [left; reflexivity | reflexivity].
   Qed.
-  (* REFUTED: "a refused export writes nothing".  An R^2 odometry edge after an SE(2) one: to_g2o raises
-     NotImplementedError, but the file has been opened and holds the vertices and the first edge -- a loadable,
-     truncated graph.  (The ValueErrors are raised before the file is opened.) *)
-  Definition ex_partial : graph Z :=
-    mkG [] [mkV 0%Z KSE2 [0; 0; 0]%Z; mkV 1%Z KSE2 [1; 0; 0]%Z; mkV 2%Z KR2 [0; 0]%Z; mkV 3%Z KR2 [1; 1]%Z]
-        [EOdo KSE2 0%Z 1%Z [1; 0; 0]%Z [[1; 0; 0]; [0; 1; 0]; [0; 0; 1]]%Z;
-         EOdo KR2 2%Z 3%Z [1; 1]%Z [[1; 0]; [0; 1]]%Z].
-  Lemma refusal_leaves_no_file_refuted :
-    exists g : graph Z,
-      wf Z g /\
-      (forall print print_id, export Z print print_id (Z.eqb 0) Z.eqb g = Error ENotImplemented) /\
-      (forall print print_id, exists ls, export_file Z print print_id (Z.eqb 0) Z.eqb g = Some ls /\ List.length ls = 5).
+  Example ex_offs_refl : offs_refl Z Z.eqb ex_graph.
   Proof.
-    exists ex_partial. split; [|split].
-    - unfold wf, ex_partial; simpl. split; [constructor|]. split; [constructor|]. split; [repeat constructor|].
-      split; [|reflexivity]. repeat (constructor; [simpl; repeat split; reflexivity|]). constructor.
-    - intros. reflexivity.
-    - intros. eexists. split; [reflexivity | reflexivity].
+    unfold offs_refl. intros o v H.
+    set (ps := export_params Z Z.eqb ex_graph) in H. vm_compute in ps. subst ps.
+    apply plookup_in in H. destruct H as [H|[H|[]]]; inversion H; reflexivity.
   Qed.
   Example ex_seps : seps_ok [("12", "  " ++ String (ascii_of_nat 9) ""); ("3.5", " "); ("-1e3", String (ascii_of_nat 13) nl)]%string.
   Proof. simpl. repeat split; try discriminate; reflexivity. Qed.
